@@ -340,6 +340,16 @@ func runRegLockstep(c *Ctx, rule string) {
 				if v, ok := ps.Ret[0].isConstInt(); !ok || v != 0 {
 					bad = append(bad, "a top-up also asks for a release")
 				}
+				// what the table still requires after the top-up is the count asked for minus the players handed over
+				cnt := req[0].Args[1].asAff()
+				still := cnt.add(affTerm("len("+R+")"), -1)
+				for _, e := range ps.storesTo("regulator.Table.Required") {
+					if !e.Val.asAff().equal(still) {
+						bad = append(bad, "after a top-up Required is set to "+e.Val.String()+", not to the count asked for minus the players handed over: later arrivals are assigned to a table that is already full")
+					} else if !hasCond(ps, func(v *Val) bool { a, ok := ltForm(v); return ok && a.equal(still.scale(-1)) }) {
+						bad = append(bad, "Required is overwritten after a top-up without the test that players are still missing")
+					}
+				}
 			case hasLoop:
 				kinds["release"]++
 				if !isEmptyVal(ps.Ret[1]) {
